@@ -184,8 +184,11 @@ def case_methods(case):
 # C15: comment modes and metadata
 # ---------------------------------------------------------------------------------------------
 FREE_WORDS = ["checks", "the", "orders", "file", "v2", "Ünïcode", "٣", "draft!", "(wip)", "a.b", "x,y", "50%", "né", "_x", "-"]
-VAL_WORDS = ["alpha", "beta", "v1", "2024-01-01", "Ünï", "x_y", "two words", "a.b,c", "(q)", "50%", "٣"]
-KEYS = ["id", "name", "description", "author", "my-key", "my_key2", "Kéy", "test-case"]
+# (values that contain field names as words or inside words — "validates" holds "id", "renamed" holds "name" — and fields named like
+#  mode values: the scanner must cut a value where the *next* field's name starts, not where those letters first occur)
+VAL_WORDS = ["alpha", "beta", "v1", "2024-01-01", "Ünï", "x_y", "two words", "a.b,c", "(q)", "50%", "٣",
+             "validates ids", "renamed", "the author said", "a description", "id", "keep it", "rerun"]
+KEYS = ["id", "name", "description", "author", "my-key", "my_key2", "Kéy", "test-case", "keep", "matches", "run", "default"]
 
 
 def enc(s):
